@@ -26,6 +26,14 @@ CLAIMED = {
          "Lean 4 theorems over all base-name assignments and all request sequences (any order, with repeats): SignalNamespace.get_name (as repaired by the fix: commit) never gives two different signals one identifier (full injectivity, no hypothesis), a named signal keeps its identifier, issued names are never reserved words (kernel decide over the keyword table regenerated from /repo on every run, which must contain the IEEE 1364-2005 list) and stay legal identifiers; the hierarchical name dictionary is order-independent and legal. Tied to /repo by an operation-sequence differential (exhaustive small domains, random, real Migen hierarchies, end-to-end convert()) with model-independent uniqueness/legality/stability oracles; cross-process reproducibility is validated by re-running convert() under different hash seeds.",
          "Trusted: Lean kernel + the three standard axioms; theorem statements; harness + driver; Python set/dict iteration order replaced by the order-independence theorem plus the re-run check; ClockSignal resolution, IO override step and sorted emission are harness monitors, not modelled. The former collision (x, x, x_1) is kept as a negative witness of the pre-fix method together with a conservativity theorem (fixed = old outside the collision region).",
          "Lean 4 proof (inductive invariants over request lists, kernel decide over regenerated table) + operation-sequence differential correspondence"),
+ "C04": ("DESIGN.md §7.C04",
+         "Lean 4 theorems: for every valid/ready schedule and token sequence, from every reachable state, each stream element (and the Buffer, Delay n, BufferizeEndpoints and PipeValid>>FIFO>>PipeReady compositions) repeats a stalled source token unchanged under a contract-keeping producer (one-cycle lemmas lifted by induction over input lists, closed under composition), and under cooperative inputs hands over a token at least every K' cycles with K' explicit and tight (decreasing measures, composed through >>); packet.Status first/ongoing/last as functions of the endpoint history. Tied to /repo by exhaustive co-exploration of (netlist state, model state, pending obligations) for the C03 instance grid and co-simulation with contract-obeying producers, with model-independent stability and progress-watchdog monitors.",
+         "Trusted: Lean kernel + the three standard axioms; theorem statements; harness + driver; Evaluator as netlist semantics. Gate, Shifter, Mux and Demux carry the explicit hypothesis that enable/shift/sel is held while a token waits (negative witnesses show they retract otherwise, by design); AsyncFIFO is C05, PacketFIFO C16; general progress of a>>b is proved for the front/back classes only. The check reuses the C03 instance grid (props/c03.py).",
+         "Lean 4 proof (invariants + one-cycle lemmas lifted by induction, decreasing measures) + checked model/implementation correspondence"),
+ "C13": ("DESIGN.md §7.C13",
+         "Sixteen Lean 4 theorems by induction over arbitrary call histories and arbitrary widths, sizes, n_locs and IO tables: region disjointness on power-of-two windows and unique names after any history, allocation soundness (aligned, inside the address space, overlapping nothing, inside an IO window when uncached), decoder exactness and at most one slave per address after a successful finalize, location uniqueness and range, IO-resource conservation (granted at most once). Tied to /repo by an operation-sequence differential: 20 k (quick) / 240 k (thorough) generated histories run on the real SoCBusHandler / SoCLocHandler / ConstraintManager and through the Lean driver, decoders evaluated on the real Migen expression (exhaustively on toy widths) and end-to-end through real InterconnectShared hardware; model-independent oracles drive the failing-input search with shrinking.",
+         "Trusted: Lean kernel + the three standard axioms; theorem statements; harness + driver; Migen Evaluator for decoder expressions. Two _partial hypotheses key the open findings (IO size a power of two: C13-alloc-io-nonpow2; size_pow2 >= bus word bytes: C13-decoder-subword). alloc(size=0) (non-terminating in the real code) and the state left behind by a rejected op are outside the model (the harness rolls back). Bulk finalize stubs the interconnect hardware.",
+         "Lean 4 proof (invariants by induction over operation lists) + operation-sequence differential correspondence"),
 }
 
 REASON_PENDING = "check not built yet in this round (model/theorems in progress); no claim is made"
